@@ -6,6 +6,18 @@ props = [json.loads(l) for l in open(os.path.join(V, "properties.jsonl"))]
 
 # id -> (technique, level text, level note, design ref)
 CLAIMS = {
+ "C08": ("complete enumeration of link placements (containers x link contents, up to 3/4 links) x widths x footnote configurations on the real code; references and footnote list compared with reference numbering derived from the oracle DOM",
+         "Every document of 0..3 (quick) / 0..4 (thorough) links, each in one of 8 containers with one of 6 contents, is rendered with footnotes on and off under plain, trivial and rich decorators; the trailing list must be exactly '[k]: target' of the k-th link with content, the references 1..n must follow their link texts in document order, and nothing of the sort may appear when disabled.",
+         "Targets are short so footnote lines do not wrap; inside side-by-side table rows only the multiset of references is compared. Known finding KF-C08-1 (deeply empty link) recognised by a fixed classifier.", "DESIGN.md §4 C08"),
+ "C09": ("complete enumeration of inline nesting chains x block contexts x widths on the real code; tag vector of every token character compared with the ancestor chain in the oracle DOM",
+         "For every chain of up to 2 (quick) / 3 (thorough) inline wrappers out of 13 (emphasis, strong, strikeout, code, link, image, sup, inline-style/class/attribute colours) in 19 block contexts (incl. coloured tables, lists, quotes, pre, nested tables) and every width, each token character's annotation vector must equal the reference vector (outermost first, colours before the element's own annotation), non-text pieces may only carry prefixes of such vectors, and the pieces must concatenate to the string output.",
+         "Preformat's continuation flag is C12's; RichAnnotation::Default is neutral. Known finding KF-C09-1 (Preformat always last) recognised by a fixed classifier.", "DESIGN.md §4 C09"),
+ "C12": ("complete enumeration of preformatted blocks (line shapes^k) x contexts x markup variants x widths on the real code, compared with a reference tab expander",
+         "Every pre block of up to 3 (quick) / 4 (thorough) lines over 13 line shapes, at top level / in a list item / in a quote, as plain text / with inline markup / with <br> separators, at every width: blocks that fit must be reproduced line for line (tabs to 8-column stops, only trailing spaces removed, all pieces Preformat(false)); blocks that do not fit must keep all non-space characters in order within the width, with first pieces tagged Preformat(false).",
+         "Known finding KF-C12-1 (continuation flag wrong on some overflow pieces) recognised by a fixed classifier.", "DESIGN.md §4 C12"),
+ "C14": ("complete enumeration of (document, element carrying the id) pairs x widths on the real code; marker count and position compared with token counts from the oracle DOM",
+         "For every valid grammar document and every element of it in turn carrying id=F (anchors also name=F), at every width: exactly one FragmentStart(F) if the element has visible text, located exactly between the text preceding the element and its first character (count oracle with tables), never more than one otherwise, and the text is identical with and without the id.",
+         "Bounds: grammar depth <=2 quick / <=3 thorough with tables and pre; widths <=20/<=30.", "DESIGN.md §4 C14"),
  "C05": ("complete enumeration of regular tables (all colspan tilings x all content classes) x widths on the real code; output parsed into a character-cell grid and checked against the box-drawing invariants",
          "Every regular table of the listed shapes, with every colspan tiling of every row and every combination of 5 content classes, is rendered at every width; the output is mapped to display cells and must be either a well-formed stacked table or a side-by-side table with equal line widths, rule first/last, bars on every line of a band and junction glyphs that match the bars above and below at every position.",
          "Shapes up to 2x3 quick, up to 3x2 / 2x4 thorough; widths <=30/<=60. Known finding KF-C05-1 (ragged line with a zero-width column inside a colspan, pinned by test_colspan_large) recognised by a fixed classifier.", "DESIGN.md §4 C05"),
